@@ -129,8 +129,10 @@ def build(loci0, bg0, variant):
 def run_case(loci0, bg0, variant):
     g = build(loci0, bg0, variant)
     tag = "%d_%d" % (os.getpid(), variant)
-    fa = os.path.join(TMP, "g%s.fa" % tag)
-    open(fa, "w").write(g["fa"])
+    # ONE FASTA path per process, rewritten in place for every case and its .fai left behind (a genome file that was updated):
+    # whatever is remembered about the path -- an index on disk, chromosome sizes in memory -- must not outlive the content
+    fa = os.path.join(TMP, "g%d.fa" % os.getpid())
+    base.fresh_write(fa, g["fa"])
     bwp = None
     if g["bw"] is not None:
         import pyBigWig
@@ -161,7 +163,7 @@ def run_case(loci0, bg0, variant):
     except Exception as e:
         ev["st"] = "err"; ev["msg"] = "%s: %s" % (type(e).__name__, str(e)[:120])
     finally:
-        for p in (fa, fa + ".fai", bwp):
+        for p in (bwp,):
             if p and os.path.exists(p):
                 os.remove(p)
     return ev
